@@ -2882,8 +2882,10 @@ impl Compiler {
         // Try to get existing namespace, use it if found, otherwise create new
         let existing_reg = self.builder.alloc_register()?;
 
-        // Try to get the existing namespace variable (returns undefined if not found)
-        self.builder.emit(Op::TryGetVar {
+        // Try to get what an earlier declaration of this scope created (another block of the
+        // namespace, or the function/class/enum it merges with); undefined if there is none.
+        // A same-named namespace of an enclosing scope is a different one.
+        self.builder.emit(Op::TryGetLocalVar {
             dst: existing_reg,
             name: name_idx,
         });
